@@ -502,8 +502,11 @@ impl Allocator for Arena {
     let final_offset = match pos {
       ArenaPosition::Start(offset) => offset.max(data_offset).min(cap),
       ArenaPosition::Current(offset) => {
-        let offset = allocated as i64 + offset;
-        #[allow(clippy::comparison_chain)]
+        // `allocated + offset` must not overflow; a sum beyond i64::MAX is beyond the capacity anyway.
+        let offset = match (allocated as i64).checked_add(offset) {
+          Some(offset) => offset,
+          None => i64::MAX,
+        };
         if offset > 0 {
           if offset >= (cap as i64) {
             cap
@@ -511,10 +514,9 @@ impl Allocator for Arena {
             let offset = offset as u32;
             offset.max(data_offset).min(cap)
           }
-        } else if offset < 0 {
-          data_offset
         } else {
-          return;
+          // position 0 or before the start: clamp to the start of the data area.
+          data_offset
         }
       }
       ArenaPosition::End(offset) => match cap.checked_sub(offset) {
